@@ -31,7 +31,7 @@ class TrilinearForm(Form):
         })
 
         # initialize COO data structures
-        sz = (ubasis.Nbfun, vbasis.Nbfun, wbasis.Nbfun, nt)
+        sz = (wbasis.Nbfun, vbasis.Nbfun, ubasis.Nbfun, nt)
         data = np.zeros(sz, dtype=self.dtype)
         rows = np.zeros(sz, dtype=np.int32)
         cols = np.zeros(sz, dtype=np.int32)
@@ -41,10 +41,10 @@ class TrilinearForm(Form):
         for k in range(ubasis.Nbfun):
             for j in range(vbasis.Nbfun):
                 for i in range(wbasis.Nbfun):
-                    mats[k, j, i] = wbasis.element_dofs[i]
-                    rows[k, j, i] = vbasis.element_dofs[j]
-                    cols[k, j, i] = ubasis.element_dofs[k]
-                    data[k, j, i] = self._kernel(
+                    mats[i, j, k] = wbasis.element_dofs[i]
+                    rows[i, j, k] = vbasis.element_dofs[j]
+                    cols[i, j, k] = ubasis.element_dofs[k]
+                    data[i, j, k] = self._kernel(
                         ubasis.basis[k],
                         vbasis.basis[j],
                         wbasis.basis[i],
@@ -60,7 +60,7 @@ class TrilinearForm(Form):
             ]),
             data.flatten(),
             (wbasis.N, vbasis.N, ubasis.N),
-            (ubasis.Nbfun, vbasis.Nbfun, wbasis.Nbfun),
+            (wbasis.Nbfun, vbasis.Nbfun, ubasis.Nbfun),
         )
 
     def _kernel(self, u, v, w, params, dx):
